@@ -167,7 +167,11 @@ theorem complete_concat (cfg : Cfg) (s : State) (w : Who) (now : Int) (b k id : 
   cases hchk : verifyAccess cfg bk w .write actPutObject k with
   | some e => simp only [hchk] at hok; exact absurd hok (errR_code_ne _)
   | none =>
-    simp only [hchk, hup] at hok ⊢
+    simp only [hchk] at hok ⊢
+    cases hlk : lockCheck bk w now true k [] with
+    | some e => simp only [hlk] at hok; exact absurd hok (errR_code_ne _)
+    | none =>
+    simp only [hlk, hup] at hok ⊢
     cases hv : validateParts up.parts parts 0 with
     | error e => simp only [hv] at hok; exact absurd hok (errR_code_ne _)
     | ok chosen =>
